@@ -195,6 +195,11 @@ class Prop:
         if pos < len(evs) and evs[pos].get("junk") and any(bytes([10, 66, 66, 66]) in base64.b64decode(w) or b"\x66" * 8 in base64.b64decode(w)
                                                             for w in evs[pos].get("writes") or []):
             return "unauthenticated-bytes-on-tun-after-cookie-load"
+        if pos > 0 and pos < len(evs) and any(e.get("tun_fail") for e in evs[:pos]) and evs[pos].get("writes"):
+            lost = {d.get("plain") for e in evs[:pos] if e.get("tun_fail") for d in e.get("dgs") or []}
+            ws = [base64.b64decode(w) for w in evs[pos].get("writes") or []]
+            if any(w and any(base64.b64decode(p or "")[:len(w)] == w for p in lost) for w in ws):
+                return "packet-of-a-failed-tun-write-written-with-a-later-batch"
         if "removed-peer" in notes and pos < len(evs) and evs[pos].get("writes"):
             return "session-of-removed-peer-accepted"
         if "late-confirmed-key-expired" in notes and pos < len(evs) and evs[pos].get("writes"):
